@@ -169,7 +169,7 @@ def build_driver(name, flavour="plain", extra_src=(), cflags=(), ldflags=()):
     srcs = [os.path.join(HARNESS, name + ".c"), os.path.join(HARNESS, "common", "vcommon.c")]
     srcs += [os.path.join(HARNESS, s) for s in extra_src]
     h = hashlib.sha1()
-    for s in srcs + glob.glob(os.path.join(HARNESS, "common", "*.h")):
+    for s in srcs + sorted(glob.glob(os.path.join(HARNESS, "common", "*.h")) + glob.glob(os.path.join(HARNESS, "*.h"))):
         h.update(open(s, "rb").read())
     h.update(repr((cflags, ldflags, px["hash"], flavour)).encode())
     outdir = os.path.join(BUILD, "drv")
